@@ -2,10 +2,16 @@
 
 package main
 
-// Direct oracle of C14, independent of pithos and of the Gallina model: a transition keeps version id,
-// content, ETag, size, metadata and tags and changes the class; afterwards every part row of the object
-// names the store configured for the target class and that store holds the part; a failed transition
-// changes nothing; every object stays readable with the expected content, whatever the configuration.
+// Direct oracle of C14, independent of pithos and of the Gallina model.  Expectations are kept per VERSION
+// (row ordinal).  Which row a key-only request addresses (the current version) is taken from the
+// implementation's own answer — that is C01/C02's subject — everything else is judged here:
+//   * a successful transition changes exactly the addressed version: version id, content, ETag, size,
+//     metadata and tags stay, the class becomes the target, every part row names the store the CURRENT
+//     configuration maps the target class to and that store lists the part; every OTHER version of the key is
+//     observed byte-for-byte the same (class, content, ETag, part ids, part stores) and readable;
+//   * a transition must fail (and change nothing) for an unknown version, a delete marker, an invalid class, or
+//     an If-Match that differs from the ETag of the ADDRESSED version;
+//   * every read returns the expected content/class/metadata/tags of the version it addresses, in every phase.
 
 import (
 	"strconv"
@@ -13,22 +19,23 @@ import (
 )
 
 type c14Exp struct {
-	ord        int
+	b, k       int
+	dm         bool
 	content    []int
 	class      string
 	meta, tags int
 }
 type c14Oracle struct {
-	objs    map[[2]int][]*c14Exp // newest last
-	nextOrd int
+	rows    map[int]*c14Exp // alive rows by ordinal
 	mapping map[string]int
 	fails   []string
 	checked int
 	tags    map[string]bool
+	alive   func(int) bool // is the ordinal still a row (harness table)
 }
 
 func c14NewOracle() *c14Oracle {
-	return &c14Oracle{objs: map[[2]int][]*c14Exp{}, mapping: map[string]int{}, tags: map[string]bool{}}
+	return &c14Oracle{rows: map[int]*c14Exp{}, mapping: map[string]int{}, tags: map[string]bool{}}
 }
 func (o *c14Oracle) failf(s string) {
 	if len(o.fails) < 4 {
@@ -36,36 +43,6 @@ func (o *c14Oracle) failf(s string) {
 	}
 }
 func (o *c14Oracle) note(t string) { o.tags[t] = true }
-func (o *c14Oracle) lookup(b, k int, v string) *c14Exp {
-	vs := o.objs[[2]int{b, k}]
-	if len(vs) == 0 {
-		return nil
-	}
-	if v == "L" {
-		return vs[len(vs)-1]
-	}
-	n, err := strconv.Atoi(v)
-	if err != nil {
-		return nil
-	}
-	for _, x := range vs {
-		if x.ord == n {
-			return x
-		}
-	}
-	return nil
-}
-func (o *c14Oracle) install(b, k int, x *c14Exp) {
-	key := [2]int{b, k}
-	if b == 0 {
-		x.ord = -1
-		o.objs[key] = []*c14Exp{x}
-		return
-	}
-	x.ord = o.nextOrd
-	o.nextOrd++
-	o.objs[key] = append(o.objs[key], x)
-}
 func (o *c14Oracle) expect(what string, wantOK bool, st string) bool {
 	o.checked++
 	if wantOK != (st == "ok") {
@@ -80,57 +57,80 @@ func c14ClassOf(cls *string) string {
 	}
 	return *cls
 }
-func (o *c14Oracle) put(b, k int, cls *string, cont, meta, tags int, st string) {
+
+func (o *c14Oracle) put(n, b, k int, cls *string, cont, meta, tags int, st string) {
 	if o.expect("PutObject", true, st) {
-		o.install(b, k, &c14Exp{content: []int{cont}, class: c14ClassOf(cls), meta: meta, tags: tags})
+		o.dropReplacedNull(n, b, k)
+		o.rows[n] = &c14Exp{b: b, k: k, content: []int{cont}, class: c14ClassOf(cls), meta: meta, tags: tags}
 	}
 }
-func (o *c14Oracle) appendOp(b, k, cont int, st string, after *c14Obs) {
+
+// a put/copy/append that rewrote the "null" row of the key: the harness' table no longer has the old ordinal
+func (o *c14Oracle) dropReplacedNull(n, b, k int) {
+	if o.alive == nil {
+		return
+	}
+	for m := range o.rows {
+		if m != n && !o.alive(m) {
+			delete(o.rows, m)
+		}
+	}
+}
+
+func (o *c14Oracle) appendOp(n int, inPlace bool, prev int, b, k, cont int, st string, after *c14Obs) {
 	if !o.expect("AppendObject", true, st) {
 		return
 	}
-	cur := o.lookup(b, k, "L")
-	if cur == nil {
-		o.install(b, k, &c14Exp{content: []int{cont}, class: "STANDARD"})
-		return
+	var cur *c14Exp
+	if prev >= 0 {
+		if x := o.rows[prev]; x != nil && !x.dm {
+			cur = x
+		}
 	}
-	if b == 0 {
+	if inPlace {
+		if cur == nil {
+			o.failf("append reported in place but there was no current object")
+			return
+		}
 		cur.content = append(cur.content, cont)
 		return
 	}
-	// versioned bucket: new version; its class/metadata/tags are C11's concern (known C11 finding) and are
+	o.dropReplacedNull(n, b, k)
+	if cur == nil {
+		o.rows[n] = &c14Exp{b: b, k: k, content: []int{cont}, class: "STANDARD"}
+		return
+	}
+	// new version in an enabled bucket: its class/metadata/tags are C11's concern (known C11 finding) and are
 	// taken as observed here
-	n := &c14Exp{content: append(append([]int{}, cur.content...), cont), class: cur.class, meta: cur.meta, tags: cur.tags}
+	x := &c14Exp{b: b, k: k, content: append(append([]int{}, cur.content...), cont), class: cur.class, meta: cur.meta, tags: cur.tags}
 	if after != nil {
-		n.class = after.class
-		n.meta, _ = strconv.Atoi(after.meta)
-		n.tags, _ = strconv.Atoi(after.tags)
+		x.class = after.class
+		x.meta, _ = strconv.Atoi(after.meta)
+		x.tags, _ = strconv.Atoi(after.tags)
 	}
-	o.install(b, k, n)
+	o.rows[n] = x
 }
-func (o *c14Oracle) copy(sb, sk int, sv string, db, dk int, cls *string, st string) {
-	src := o.lookup(sb, sk, sv)
-	if o.expect("CopyObject", src != nil, st) {
-		o.install(db, dk, &c14Exp{content: append([]int{}, src.content...), class: c14ClassOf(cls), meta: src.meta, tags: src.tags})
+func (o *c14Oracle) copy(n, src, db, dk int, cls *string, st string) {
+	var s *c14Exp
+	if src >= 0 {
+		s = o.rows[src]
+	}
+	if o.expect("CopyObject", s != nil && !s.dm, st) {
+		o.dropReplacedNull(n, db, dk)
+		o.rows[n] = &c14Exp{b: db, k: dk, content: append([]int{}, s.content...), class: c14ClassOf(cls), meta: s.meta, tags: s.tags}
 	}
 }
-func (o *c14Oracle) delete(b, k int, v string, st string) {
+func (o *c14Oracle) delete(gone []int, marker, b, k int, st string) {
 	if !o.expect("DeleteObject", true, st) {
 		return
 	}
-	key := [2]int{b, k}
-	if b == 0 {
-		delete(o.objs, key)
-		return
+	for _, n := range gone {
+		delete(o.rows, n)
 	}
-	n, _ := strconv.Atoi(v)
-	var keep []*c14Exp
-	for _, x := range o.objs[key] {
-		if x.ord != n {
-			keep = append(keep, x)
-		}
+	if marker >= 0 {
+		o.rows[marker] = &c14Exp{b: b, k: k, dm: true}
+		o.note("delete-marker")
 	}
-	o.objs[key] = keep
 }
 
 func c14ContentStr(c []int) string {
@@ -165,83 +165,122 @@ func (o *c14Oracle) checkObs(where string, x *c14Exp, got *c14Obs) {
 		o.failf(where + ": " + strings.Join(d, ", "))
 	}
 }
-func (o *c14Oracle) read(b, k int, v string, got *c14Obs) {
+func (o *c14Oracle) read(n, b, k int, v string, got *c14Obs) {
 	o.checked++
 	where := "(" + strconv.Itoa(b) + "," + strconv.Itoa(k) + "," + v + ")"
-	x := o.lookup(b, k, v)
-	if x == nil {
-		o.failf("object " + where + " is readable but should not exist")
+	x := o.rows[n]
+	if n < 0 || x == nil || x.dm {
+		o.failf("object " + where + " is readable but no such version should exist")
 		return
 	}
-	o.checkObs("object "+where, x, got)
+	o.checkObs("object "+where+" = row "+strconv.Itoa(n), x, got)
 }
-func (o *c14Oracle) readErr(b, k int, v string, errc string) {
+func (o *c14Oracle) readErr(n, b, k int, v string, errc string) {
 	o.checked++
-	if x := o.lookup(b, k, v); x != nil {
-		o.failf("object (" + strconv.Itoa(b) + "," + strconv.Itoa(k) + "," + v + ") must be readable, got " + errc)
+	if x := o.rows[n]; n >= 0 && x != nil && !x.dm {
+		o.failf("object (" + strconv.Itoa(b) + "," + strconv.Itoa(k) + "," + v + ") = row " + strconv.Itoa(n) + " must be readable, got " + errc)
 	}
 }
 
 var c14ValidClasses = c11ValidClasses
 
-func (o *c14Oracle) transition(b, k int, v string, cls string, st string, before, after *c14Obs) {
-	x := o.lookup(b, k, v)
+func (o *c14Oracle) transition(target, b, k int, v string, cls string, im string, imETag string, st string, bo, ao *c14Obs, before, after map[int]string) {
+	var x *c14Exp
+	if target >= 0 {
+		x = o.rows[target]
+	}
 	where := "transition of (" + strconv.Itoa(b) + "," + strconv.Itoa(k) + "," + v + ") to " + cls
-	okWanted := x != nil && c14ValidClasses[cls]
-	if !o.expect(where, okWanted, st) {
-		// failure cases leave the state unchanged
-		if st != "ok" && x != nil {
-			if before == nil || after == nil {
-				o.failf(where + " failed and the object is no longer readable")
-			} else if *before != *after {
-				o.failf(where + " failed but changed the object: " + before.String() + " -> " + after.String())
-			}
+	okWanted := x != nil && !x.dm && c14ValidClasses[cls]
+	if okWanted && im != "N" && im != "*" {
+		if bo == nil {
+			o.failf(where + ": addressed version unreadable before")
+			return
 		}
+		if bo.etag != imETag {
+			okWanted = false
+			o.note("transition:ifmatch-mismatch")
+		} else {
+			o.note("transition:ifmatch-match")
+		}
+	}
+	// every version other than the addressed one must be observed exactly as before
+	for n, was := range before {
+		if n == target && st == "ok" {
+			continue
+		}
+		if now, ok := after[n]; !ok || now != was {
+			o.failf(where + ": row " + strconv.Itoa(n) + " of the key changed: " + was + " -> " + after[n])
+		}
+	}
+	if !o.expect(where, okWanted, st) {
 		return
 	}
-	if before == nil || after == nil {
-		o.failf(where + ": object unreadable before/after")
+	if bo == nil || ao == nil {
+		o.failf(where + ": addressed version unreadable before/after")
 		return
 	}
 	var d []string
-	if before.vid != after.vid {
+	if bo.vid != ao.vid {
 		d = append(d, "version id changed")
 	}
-	if before.etag != after.etag {
-		d = append(d, "ETag changed "+before.etag+" -> "+after.etag)
+	if bo.etag != ao.etag {
+		d = append(d, "ETag changed "+bo.etag+" -> "+ao.etag)
 	}
-	if before.size != after.size || before.content != after.content {
-		d = append(d, "content changed "+before.content+" -> "+after.content)
+	if bo.size != ao.size || bo.content != ao.content {
+		d = append(d, "content changed "+bo.content+" -> "+ao.content)
 	}
-	if before.meta != after.meta || before.tags != after.tags {
+	if bo.meta != ao.meta || bo.tags != ao.tags {
 		d = append(d, "metadata/tags changed")
 	}
-	if after.class != cls {
-		d = append(d, "reported class "+after.class)
+	if ao.class != cls {
+		d = append(d, "reported class of the addressed version is "+ao.class)
 	}
-	target := strconv.Itoa(o.mapping[cls]) // unmapped classes route to the default store 0
-	for _, s := range strings.Split(after.stores, ".") {
-		if s != target && after.stores != "-" {
-			d = append(d, "part stores after transition "+after.stores+", class maps to store "+target)
+	tstore := strconv.Itoa(o.mapping[cls]) // unmapped classes route to the default store 0
+	for _, s := range strings.Split(ao.stores, ".") {
+		if s != tstore && ao.stores != "-" {
+			d = append(d, "part stores after transition "+ao.stores+", the target class maps to store "+tstore)
 			break
 		}
 	}
-	if after.partsOK != "" {
-		d = append(d, after.partsOK)
+	if ao.partsOK != "" {
+		d = append(d, ao.partsOK)
 	}
 	if len(d) > 0 {
 		o.failf(where + ": " + strings.Join(d, ", "))
 	}
 	switch {
-	case before.stores == after.stores:
+	case bo.stores == ao.stores:
 		o.note("transition:stayed")
-	case strings.Contains(before.stores, target):
+	case strings.Contains(bo.stores, tstore):
 		o.note("transition:mixed")
 	default:
 		o.note("transition:moved")
 	}
-	if strings.Contains(after.stores, ".") {
+	if strings.Contains(ao.stores, ".") {
 		o.note("transition:multi-part")
+	}
+	if v != "L" {
+		o.note("transition:by-version")
+	}
+	if v == "X" {
+		o.note("transition:null-id")
+	}
+	if len(before) > 1 {
+		o.note("transition:other-versions-present")
+		// was a shared part involved?  (another row of the key lists one of the addressed row's part ids)
+		for n, was := range before {
+			if n != target && bo.partIDs != "" {
+				for _, id := range strings.Split(bo.partIDs, ".") {
+					if strings.Contains(was, id) {
+						o.note("transition:shared-part-across-versions")
+					}
+				}
+			}
+		}
+	}
+	// routed although the object's previous class maps to the same store as the target class now
+	if bo.stores != ao.stores && strconv.Itoa(o.mapping[bo.class]) == tstore {
+		o.note("transition:moved-though-classes-share-store")
 	}
 	x.class = cls
 }
